@@ -449,8 +449,10 @@ class ParseModel(object):
                     continue
                 t = resolve(term(ini.kids[0], cenv))
                 syn = '%s::%s' % (name, ini.name)
-                if t[0] == 'var' and t[1] in locals_:
-                    member[ini.name] = t                      # the caller's vector, moved / copied in
+                while t[0] == 'call' and str(t[1]).startswith(('static_cast', 'unsigned', 'size_t')) and len(t[2]) == 1:
+                    t = t[2][0]
+                if t[0] == 'var' and (t[1] in locals_ or t[1] == self.p_len):
+                    member[ini.name] = t                      # the caller's vector, moved / copied in (or the sentence length)
                 elif t[0] == 'ctor' and 'matrix' in (t[1] or ''):
                     member[ini.name] = V(syn)
                     squares.append((syn, t[2]))
